@@ -419,4 +419,622 @@ Section Run.
         assert (matches noc_rule s = true) by (apply noc_rule_driver; eauto). congruence. }
       rewrite Hn. repeat split; auto. eapply all_le_mono; [|exact Hle]. lia.
   Qed.
+
+  Lemma jwf_deliver : forall r t s st, jwf st -> jwf (ss_deliver r t s st).
+  Proof. intros r t s [j qs qn src] H. unfold jwf, ss_deliver in *. cbn in *. destruct qn; exact H. Qed.
+
+  (* ---- a signal arrives while the stream exists *)
+  Lemma ready_sig : forall st n s sg start,
+    ss_ok n st -> start <= n ->
+    (match c_dest cf with DWell => ss_qn st <> None /\ LOOKUP <= sp_rep sg | DUnique _ => ss_qn st = None end) ->
+    ss_end st = sp_owner sg ->
+    (c_dest cf = DWell -> not_driver (sp_owner sg) = true) ->
+    (c_dest cf = DWell -> forall new, driver_noc s = Some new -> not_driver new = true) ->
+    (forall u, c_dest cf = DUnique u -> sp_owner sg = Some u) ->
+    s_sender s <> None -> (wanted cf s = true -> is_noc s = false) ->
+    let st' := ss_deliver (sig_rule cf) (n + 1) s st in
+    ss_ok (n + 1) st' /\
+    (match c_dest cf with DWell => ss_qn st' <> None | DUnique _ => ss_qn st' = None end) /\
+    map fst (ss_pend st') =
+      map fst (ss_pend st) ++ (if wanted cf s && (start <? n + 1) && from_owner sg s then [n + 1] else []) /\
+    ss_end st' = sp_owner (sp_step cf sg (WSig s)).
+  Proof.
+    intros st n s sg start (Hwf & Hso & Hle) Hstart Hq He Hnd Hnew Hu Hsnd Hnoc st'.
+    assert (Hm : ss_merged st' = ss_merged st ++
+              (if matches (sig_rule cf) s || (match ss_qn st with Some _ => matches noc_rule s | None => false end)
+               then [(n + 1, s)] else [])).
+    { apply ss_deliver_merged; [exact Hle|apply rules_exclusive]. }
+    assert (Hsrc : ss_src st' = ss_src st) by reflexivity.
+    assert (Hqn : match c_dest cf with DWell => ss_qn st' <> None | DUnique _ => ss_qn st' = None end).
+    { subst st'. unfold ss_deliver. cbn [ss_qn]. destruct (c_dest cf).
+      - rewrite Hq. reflexivity.
+      - destruct Hq as [Hq _]. destruct (ss_qn st); [discriminate|contradiction]. }
+    assert (Hlt : (start <? n + 1) = true) by (apply N.ltb_lt; lia).
+    assert (Hok : ss_ok (n + 1) st').
+    { split; [apply jwf_deliver; exact Hwf|]. rewrite Hm.
+      destruct (matches (sig_rule cf) s || _).
+      - split; [apply sorted_app_one; [exact Hso|eapply all_le_mono; [|exact Hle]; lia]|].
+        apply Forall_app. split; [eapply all_le_mono; [|exact Hle]; lia|constructor; [cbn; lia|constructor]].
+      - rewrite app_nil_r. split; [exact Hso|eapply all_le_mono; [|exact Hle]; lia]. }
+    split; [exact Hok|]. split; [exact Hqn|].
+    unfold ss_pend, ss_end in *. rewrite Hsrc, Hm. rewrite Hlt, andb_true_r.
+    destruct (matches (sig_rule cf) s) eqn:Es; cbn [orb].
+    - (* wanted by the stream *)
+      rewrite frun_app_one. cbn [fst snd]. rewrite He.
+      rewrite sig_rule_wanted in Es. apply andb_true_iff in Es. destruct Es as [Hw Hsu].
+      specialize (Hnoc Hw).
+      assert (Hf : ss_filter (sp_owner sg) s = (opt_eqb (s_sender s) (sp_owner sg), sp_owner sg)).
+      { unfold ss_filter. rewrite Hnoc. destruct (opt_eqb (s_sender s) (sp_owner sg)); reflexivity. }
+      rewrite Hf. cbn [fst snd]. rewrite Hw. cbn [andb].
+      assert (Hfo : from_owner sg s = opt_eqb (s_sender s) (sp_owner sg)).
+      { unfold from_owner. destruct (sp_owner sg) as [o|]; [reflexivity|].
+        destruct (s_sender s); [reflexivity|contradiction]. }
+      rewrite Hfo. split.
+      + rewrite map_app. destruct (opt_eqb (s_sender s) (sp_owner sg)); reflexivity.
+      + (* the owner is untouched: the signal is on the proxy's path, not the driver's *)
+        unfold sp_step. destruct (c_dest cf); [reflexivity|].
+        destruct (driver_noc s) as [new|] eqn:Ed; [|reflexivity].
+        destruct (driver_noc_shape _ _ Ed) as (_ & Hp & _).
+        unfold wanted in Hw. apply andb_true_iff in Hw. destruct Hw as [Hw _].
+        apply andb_true_iff in Hw. destruct Hw as [Hw _]. apply N.eqb_eq in Hw. rewrite Hw in Hp. discriminate.
+    - destruct (c_dest cf) as [u|] eqn:Ed.
+      + (* unique name: nothing is queued, the specification ignores it too *)
+        rewrite Hq, app_nil_r. rewrite sig_rule_wanted, Ed in Es.
+        split; [|unfold sp_step; rewrite Ed; exact He].
+        destruct (wanted cf s); cbn [andb]; [|rewrite app_nil_r; reflexivity].
+        cbn [andb] in Es. unfold from_owner. rewrite (Hu u eq_refl), Es, app_nil_r. reflexivity.
+      + rewrite sig_rule_wanted, Ed, andb_true_r in Es. rewrite Es. cbn [andb]. rewrite app_nil_r.
+        destruct Hq as [Hq Hrep]. destruct (ss_qn st) as [q|]; [|contradiction].
+        destruct (matches noc_rule s) eqn:En.
+        * apply noc_rule_driver in En. destruct En as [new En].
+          rewrite frun_app_one. cbn [fst snd]. rewrite He.
+          rewrite (filter_noc _ _ _ En (Hnd eq_refl)). cbn [fst snd]. rewrite app_nil_r.
+          split; [reflexivity|]. unfold sp_step. rewrite Ed, En.
+          destruct (LOOKUP <=? sp_rep sg) eqn:El; [reflexivity|]. apply N.leb_gt in El. lia.
+        * rewrite app_nil_r. split; [reflexivity|]. rewrite He. unfold sp_step. rewrite Ed.
+          destruct (driver_noc s) as [new|] eqn:E2; [|reflexivity].
+          assert (matches noc_rule s = true) by (apply noc_rule_driver; eauto). congruence.
+  Qed.
+
+  Lemma base_new_ok : forall s rest seq reps nc pre,
+    Base (WSig s :: rest) seq reps nc pre ->
+    c_dest cf = DWell -> forall new, driver_noc s = Some new -> not_driver new = true.
+  Proof.
+    intros s rest seq reps nc pre B Hd new En. pose proof (b_own _ _ _ _ _ B Hd) as Ho.
+    cbn [owners_ok_from] in Ho. rewrite En in Ho. apply andb_true_iff in Ho. tauto.
+  Qed.
+
+  Lemma dest_cases : c_dest cf = DWell \/ exists u, c_dest cf = DUnique u.
+  Proof. destruct (c_dest cf); eauto. Qed.
+
+  Lemma base_fst1 : forall todo seq reps nc pre,
+    Base todo seq reps nc pre -> c_dest cf = DWell -> reps = 1 -> fst (cacc pre) = 1.
+  Proof.
+    intros todo seq reps nc pre B Hd Hr. destruct (b_con _ _ _ _ _ B Hd) as [Hf _]; [lia|]. congruence.
+  Qed.
+
+  Lemma cacc_sig_none : forall pre s, driver_noc s = None -> cacc (pre ++ [WSig s]) = cacc pre.
+  Proof. intros. rewrite cacc_snoc. cbn [cstep]. rewrite H. reflexivity. Qed.
+
+  Lemma cacc_sig_some : forall pre s new, driver_noc s = Some new -> fst (cacc pre) = 1 ->
+    snd (cacc (pre ++ [WSig s])) = Some new.
+  Proof. intros pre s new H H1. rewrite cacc_snoc. cbn [cstep]. rewrite H, H1. reflexivity. Qed.
+
+  Lemma owner_sig_none : forall sg s, driver_noc s = None -> sp_owner (sp_step cf sg (WSig s)) = sp_owner sg.
+  Proof. intros sg s H. unfold sp_step. destruct (c_dest cf); [reflexivity|]. rewrite H. reflexivity. Qed.
+
+  Lemma owner_sig_some : forall sg s new, c_dest cf = DWell -> driver_noc s = Some new -> LOOKUP <= sp_rep sg ->
+    sp_owner (sp_step cf sg (WSig s)) = new.
+  Proof.
+    intros sg s new Hd H Hl. unfold sp_step. rewrite Hd, H.
+    destruct (LOOKUP <=? sp_rep sg) eqn:E; [reflexivity|]. apply N.leb_gt in E. lia.
+  Qed.
+
+  (* ---- the socket reader hands over a signal *)
+  Lemma tick_sig_inv : forall w pre s rest,
+    w_todo w = WSig s :: rest ->
+    Base (w_todo w) (w_seq w) (w_reps w) (ncalls w) pre -> PInv w pre ->
+    WInv {| w_todo := rest; w_seq := w_seq w + 1; w_reps := w_reps w; w_log := w_log w;
+            w_ph := deliver_sig cf (w_seq w + 1) s (w_ph w); w_out := w_out w; w_start := w_start w;
+            w_lost := w_lost w |}.
+  Proof.
+    intros w pre s rest Et B P. rewrite Et in B.
+    exists (pre ++ [WSig s]). split; [apply Base_sig; exact B|].
+    pose proof (base_new_ok _ _ _ _ _ _ B) as Hnew.
+    destruct (in_hist _ _ _ _ _ s rest B eq_refl) as [Hsnd Hnoc].
+    unfold PInv in *. cbn [w_ph w_out w_log w_seq w_reps w_start ncalls].
+    change (ncalls {| w_todo := rest; w_seq := w_seq w + 1; w_reps := w_reps w; w_log := w_log w;
+                      w_ph := deliver_sig cf (w_seq w + 1) s (w_ph w); w_out := w_out w; w_start := w_start w;
+                      w_lost := w_lost w |}) with (ncalls w).
+    destruct (w_ph w) as [|c qr|c j qn fut|c src qn qr|st| |] eqn:Eph; cbn [deliver_sig]; try exact P.
+    - (* PhOwner *)
+      destruct P as (Hd & Hc & Hn & Hj & Ho & Hg & Hso & Hle & Hcase).
+      destruct (noc_push (w_seq w) s qn Hg Hso Hle Hnew Hd) as (Hg' & Hso' & Hle' & Hne & Hnone).
+      repeat (split; [assumption|]).
+      destruct Hcase as [(Hr & Hf & Hq)|(Hr & tr & p & qb & qa & Hf & Hqn & Hb & Ha & Hlk & Hown' & Htr)].
+      + left. split; [exact Hr|]. split; [exact Hf|].
+        destruct (matches noc_rule s) eqn:Em.
+        * right. apply noc_rule_driver in Em. destruct Em as [new Em].
+          rewrite Hne, Em. apply cacc_sig_some; [exact Em|].
+          exact (base_fst1 _ _ _ _ _ B Hd Hr).
+        * rewrite (cacc_sig_none _ _ (Hnone eq_refl)). exact Hq.
+      + right. split; [exact Hr|].
+        destruct (matches noc_rule s) eqn:Em.
+        * apply noc_rule_driver in Em. destruct Em as [new Em].
+          exists tr, p, qb, (qa ++ [(w_seq w + 1, s)]).
+          split; [exact Hf|]. split; [unfold push; rewrite Hqn, app_assoc; reflexivity|].
+          split; [exact Hb|]. split; [apply Forall_app; split; [exact Ha|constructor; [cbn; lia|constructor]]|].
+          split; [exact Hlk|]. split; [|lia].
+          rewrite sp_run_snoc, (owner_sig_some _ _ new Hd Em) by (rewrite (b_reps _ _ _ _ _ B); unfold LOOKUP; lia).
+          rewrite nend_app. unfold nend at 1. cbn [fold_left]. unfold nstep. cbn [snd].
+          rewrite (driver_noc_new _ _ Em). reflexivity.
+        * exists tr, p, qb, qa. repeat (split; [assumption|]). split; [|lia].
+          rewrite sp_run_snoc, (owner_sig_none _ _ (Hnone eq_refl)). exact Hown'.
+    - (* PhAddS *)
+      destruct P as (Ho & P). split; [exact Ho|].
+      destruct dest_cases as [Hd|[u Hd]]; rewrite Hd in P |- *.
+      2: { destruct P as (Hc & Hn & Hq & Hs & Hr). subst qn. cbn [option_map]. repeat split; assumption. }
+      + destruct P as (Hc & Hn & Hnd & Hr & H1 & q & Hq & Hg & Hso & Hle & Hcase). subst qn. cbn [option_map].
+        destruct (noc_push (w_seq w) s q Hg Hso Hle Hnew Hd) as (Hg' & Hso' & Hle' & Hne & Hnone).
+        repeat (split; [assumption|]).
+        eexists. split; [reflexivity|]. repeat (split; [assumption|]).
+        destruct Hcase as [(Hr1 & Hl)|(Hr2 & Hown')].
+        * left. split; [exact Hr1|].
+          destruct (matches noc_rule s) eqn:Em.
+          -- apply noc_rule_driver in Em. destruct Em as [new Em]. rewrite Hne, Em.
+             apply cacc_sig_some; [exact Em|]. exact (base_fst1 _ _ _ _ _ B Hd Hr1).
+          -- rewrite (cacc_sig_none _ _ (Hnone eq_refl)), Hne, (Hnone eq_refl). exact Hl.
+        * right. split; [exact Hr2|]. rewrite sp_run_snoc, Hne.
+          destruct (driver_noc s) as [new|] eqn:Em.
+          -- apply owner_sig_some; [exact Hd|exact Em|]. rewrite (b_reps _ _ _ _ _ B). unfold LOOKUP. lia.
+          -- rewrite owner_sig_none by exact Em. exact Hown'.
+    - (* PhReady *)
+      destruct P as (Hr & Hn & Hok & Hstart & Hq & Hy & He).
+      assert (Hq' : match c_dest cf with
+                    | DWell => ss_qn st <> None /\ LOOKUP <= sp_rep (sp_run cf pre)
+                    | DUnique _ => ss_qn st = None
+                    end).
+      { destruct dest_cases as [Hd|[u Hd]]; rewrite Hd in Hq, Hn |- *; [|exact Hq]. split; [exact Hq|].
+        rewrite (b_reps _ _ _ _ _ B), Hr, Hn. cbn. unfold LOOKUP. lia. }
+      destruct (ready_sig st (w_seq w) s (sp_run cf pre) (w_start w) Hok Hstart Hq' He
+                  (b_nd _ _ _ _ _ B) Hnew (fun u Hu => sp_owner_unique cf u pre Hu) Hsnd Hnoc)
+        as (Hok' & Hqn' & Hp' & He').
+      split; [exact Hr|]. split; [exact Hn|]. split; [exact Hok'|]. split; [lia|]. split; [exact Hqn'|].
+      split.
+      + rewrite Hp', app_assoc, Hy, spec_pre_snoc.
+        rewrite (b_len _ _ _ _ _ B). replace (1 + w_seq w) with (w_seq w + 1) by lia. reflexivity.
+      + rewrite sp_run_snoc. exact He'.
+  Qed.
+
+  Lemma owner_rep : forall sg p,
+    sp_owner (sp_step cf sg (WRep p)) =
+    match c_dest cf with
+    | DWell => if sp_rep sg + 1 =? LOOKUP then lookup_result p else sp_owner sg
+    | DUnique _ => sp_owner sg
+    end.
+  Proof. intros. unfold sp_step. destruct (c_dest cf); reflexivity. Qed.
+
+  (* the lookup answer agrees with the notifications read since reply 1 *)
+  Lemma base_lookup : forall p rest seq nc pre o,
+    Base (WRep p :: rest) seq 1 nc pre -> c_dest cf = DWell -> snd (cacc pre) = Some o -> lookup_result p = o.
+  Proof.
+    intros p rest seq nc pre o B Hd Hl. destruct (b_con _ _ _ _ _ B Hd) as [_ Hc]; [lia|].
+    rewrite Hl in Hc. cbn in Hc. apply opt_eqb_eq. exact Hc.
+  Qed.
+
+  (* ---- the socket reader hands over a reply *)
+  Lemma tick_rep_inv : forall w pre p rest,
+    w_todo w = WRep p :: rest -> w_reps w < ncalls w ->
+    Base (w_todo w) (w_seq w) (w_reps w) (ncalls w) pre -> PInv w pre ->
+    WInv {| w_todo := rest; w_seq := w_seq w + 1; w_reps := w_reps w + 1; w_log := w_log w;
+            w_ph := deliver_rep (w_seq w + 1) (w_reps w + 1) p (w_ph w); w_out := w_out w;
+            w_start := w_start w; w_lost := w_lost w |}.
+  Proof.
+    intros w pre p rest Et Hlt B P. rewrite Et in B.
+    exists (pre ++ [WRep p]). split; [apply Base_rep; assumption|].
+    unfold PInv in *. cbn [w_ph w_out w_log w_seq w_reps w_start].
+    change (ncalls {| w_todo := rest; w_seq := w_seq w + 1; w_reps := w_reps w + 1; w_log := w_log w;
+                      w_ph := deliver_rep (w_seq w + 1) (w_reps w + 1) p (w_ph w); w_out := w_out w;
+                      w_start := w_start w; w_lost := w_lost w |}) with (ncalls w).
+    destruct (w_ph w) as [|c qr|c j qn fut|c src qn qr|st| |] eqn:Eph; cbn [deliver_rep]; try exact P.
+    - destruct P as (Hd & Hc & Hn & Ho & Hq). repeat (split; [assumption|]).
+      apply qrep_push_mine; [lia|exact Hq].
+    - (* PhOwner *)
+      destruct P as (Hd & Hc & Hn & Hj & Ho & Hg & Hso & Hle & Hcase).
+      destruct Hcase as [(Hr & Hf & Hq)|(Hr & _)]; [|lia]. subst fut. cbn [deliver_rep].
+      repeat (split; [assumption|]). split; [eapply all_le_mono; [|exact Hle]; lia|].
+      right. split; [lia|]. exists (w_seq w + 1), p, qn, []. rewrite Hr. cbn [push app].
+      split; [reflexivity|]. split; [rewrite app_nil_r; reflexivity|].
+      split; [apply all_le_lt_succ; exact Hle|]. split; [constructor|]. split.
+      + destruct Hq as [Hq|Hq]; [left; exact Hq|right]. rewrite Hr in B.
+        exact (base_lookup _ _ _ _ _ _ B Hd Hq).
+      + split; [|lia]. rewrite sp_run_snoc, owner_rep, Hd, (b_reps _ _ _ _ _ B), Hr. reflexivity.
+    - (* PhAddS *)
+      destruct P as (Ho & P). split; [exact Ho|].
+      destruct dest_cases as [Hd|[u Hd]]; rewrite Hd in P |- *.
+      + destruct P as (Hc & Hn & Hnd & Hr & H1 & q & Hq & Hg & Hso & Hle & Hcase).
+        split; [exact Hc|]. split; [exact Hn|]. split; [exact Hnd|].
+        assert (Hq3 : qrep 3 (w_reps w + 1) (push qr (w_seq w + 1) (w_reps w + 1, p))).
+        { assert (w_reps w = 1 \/ w_reps w = 2) as [E|E] by lia.
+          - apply qrep_push_other; [lia|exact Hr].
+          - apply qrep_push_mine; [lia|exact Hr]. }
+        split; [exact Hq3|]. split; [lia|]. exists q. split; [exact Hq|]. split; [exact Hg|]. split; [exact Hso|].
+        split; [eapply all_le_mono; [|exact Hle]; lia|]. right. split; [lia|].
+        rewrite sp_run_snoc, owner_rep, Hd, (b_reps _ _ _ _ _ B).
+        destruct Hcase as [(Hr1 & Hl)|(Hr2 & Hown')].
+        * rewrite Hr1. cbn. rewrite Hr1 in B. exact (base_lookup _ _ _ _ _ _ B Hd Hl).
+        * assert (E : w_reps w = 2) by lia. rewrite E. cbn. exact Hown'.
+      + destruct P as (Hc & Hn & Hq & Hs & Hr). repeat (split; [assumption|]).
+        apply qrep_push_mine; [lia|exact Hr].
+    - (* PhReady: every call has been answered *)
+      destruct P as (Hr & _). lia.
+  Qed.
+
+  Lemma tick_inv : forall w w', WInv w -> tick cf w = Some w' -> WInv w'.
+  Proof.
+    intros w w' (pre & B & P) H. unfold tick in H.
+    destruct (w_todo w) as [|[s|p] rest] eqn:Et.
+    - inversion H; subst. exists pre. rewrite Et. split; assumption.
+    - inversion H; subst. rewrite <- Et in B. eapply tick_sig_inv; eassumption.
+    - destruct (w_reps w <? ncalls w) eqn:E; [|discriminate]. apply N.ltb_lt in E.
+      inversion H; subst. rewrite <- Et in B. eapply tick_rep_inv; eassumption.
+  Qed.
+
+  (* ---- the join of SignalStream::new on the four shapes its inputs can have *)
+  Lemma owner_poll_empty : owner_poll 2 JNone [] (Some []) = (RPending, JNone, [], Some []).
+  Proof. reflexivity. Qed.
+  Lemma owner_poll_left : forall ta a q,
+    owner_poll 2 JNone ((ta, a) :: q) (Some []) = (RItem (ILeft a) ta, JNone, q, Some []).
+  Proof. reflexivity. Qed.
+  Lemma owner_poll_right : forall tr p,
+    owner_poll 2 JNone [] (Some [(tr, (2, p))]) = (RItem (IRight p) tr, JNone, [], None).
+  Proof. reflexivity. Qed.
+  Lemma owner_poll_both : forall ta a q tr p,
+    owner_poll 2 JNone ((ta, a) :: q) (Some [(tr, (2, p))]) =
+    if ta <=? tr then (RItem (ILeft a) ta, JB (IRight p) tr, q, None)
+    else (RItem (IRight p) tr, JA (ILeft a) ta, q, None).
+  Proof. intros. unfold owner_poll. cbn. destruct (ta <=? tr); reflexivity. Qed.
+
+  Lemma ncalls_call : forall w what ph, ncalls (call w what ph) = ncalls w + 1.
+  Proof. intros. unfold ncalls, call. cbn [w_log length]. lia. Qed.
+
+  Lemma good_head : forall t a q, qn_good ((t, a) :: q) ->
+    exists old new, s_body a = BNoc NAME_W old new /\ noc_new a = Some new /\ not_driver new = true /\ qn_good q.
+  Proof.
+    intros t a q H. inversion H as [|? ? (new & Hd & Hn) Hq]; subst. cbn [snd] in Hd.
+    destruct (driver_noc_shape _ _ Hd) as (_ & _ & _ & old & Hb).
+    exists old, new. repeat split; auto. apply driver_noc_new. exact Hd.
+  Qed.
+
+  Lemma nend_cons : forall src t a q new, noc_new a = Some new -> nend src ((t, a) :: q) = nend new q.
+  Proof. intros. unfold nend. cbn [fold_left]. unfold nstep at 2. cbn [snd]. rewrite H. reflexivity. Qed.
+
+  Lemma qrep_nil : forall c reps, reps < c -> qrep c reps [].
+  Proof. intros. left. split; [assumption|]. split; constructor. Qed.
+
+  (* the world after SignalStream::new has settled on an owner and asked for the signal rule *)
+  Definition resolved_world (w : world) (src : option N) (q : queue sigm) (lost : bool) : world :=
+    let w' := call w C_ADDMATCH (fun c' => PhAddS c' src (Some q) []) in
+    {| w_todo := w_todo w'; w_seq := w_seq w'; w_reps := w_reps w'; w_log := w_log w'; w_ph := w_ph w';
+       w_out := w_out w'; w_start := w_start w'; w_lost := w_lost w' || lost |}.
+
+  Lemma resolved_inv : forall w pre src q lost,
+    Base (w_todo w) (w_seq w) (w_reps w) (ncalls w) pre -> ncalls w = 2 -> c_dest cf = DWell -> w_out w = [] ->
+    not_driver src = true -> qn_good q -> sorted q -> all_le (w_seq w) q ->
+    ((w_reps w = 1 /\ snd (cacc pre) = Some (nend src q)) \/
+     (w_reps w = 2 /\ sp_owner (sp_run cf pre) = nend src q)) ->
+    WInv (resolved_world w src q lost).
+  Proof.
+    intros w pre src q lost B Hn Hd Ho Hnd Hg Hso Hle Hcase.
+    assert (Hn' : ncalls (resolved_world w src q lost) = 3).
+    { unfold resolved_world, call, ncalls in *. cbn [w_log length]. lia. }
+    exists pre. split.
+    - rewrite Hn'. unfold resolved_world, call. cbn [w_todo w_seq w_reps].
+      eapply Base_calls; [|exact B]. lia.
+    - unfold PInv. rewrite Hn'. unfold resolved_world, call. cbn [w_ph w_out w_reps w_seq]. rewrite Hd, Hn.
+      split; [exact Ho|]. split; [reflexivity|]. split; [reflexivity|]. split; [exact Hnd|].
+      assert (Hr12 : 1 <= w_reps w <= 2) by (destruct Hcase as [[E _]|[E _]]; lia).
+      split; [apply qrep_nil; lia|]. split; [lia|].
+      exists q. repeat (split; [first [assumption|reflexivity]|]).
+      destruct Hcase as [[E H1]|[E H2]]; [left|right]; split; auto; lia.
+  Qed.
+
+  (* ---- the task that creates the stream makes a step *)
+  Lemma client_inv : forall w, WInv w -> w_lost (client_step cf w) = false -> WInv (client_step cf w).
+  Proof.
+    intros w (pre & B & P) Hlost. unfold client_step in *. unfold PInv in P.
+    destruct (w_ph w) as [|c qr|c j qn fut|c src qn qr|st| |] eqn:Eph;
+      try (exists pre; split; [exact B|unfold PInv; rewrite Eph; exact P]).
+    - (* PhStart *)
+      destruct P as [Hl Ho].
+      assert (Hn0 : ncalls w = 0) by (unfold ncalls; rewrite Hl; reflexivity).
+      assert (Hr0 : w_reps w = 0) by (pose proof (b_calls _ _ _ _ _ B); lia).
+      destruct dest_cases as [Hd|[u Hd]]; rewrite Hd in *.
+      + exists pre. split.
+        * cbn [w_todo w_seq w_reps call]. rewrite ncalls_call. eapply Base_calls; [|exact B]. lia.
+        * unfold PInv. cbn [w_ph call w_out w_reps]. rewrite ncalls_call, Hn0, Hr0, Hd.
+          repeat split; auto. apply qrep_nil. lia.
+      + exists pre. split.
+        * cbn [w_todo w_seq w_reps call]. rewrite ncalls_call. eapply Base_calls; [|exact B]. lia.
+        * unfold PInv. cbn [w_ph call w_out w_reps]. rewrite ncalls_call, Hn0, Hr0, Hd.
+          repeat split; auto. apply qrep_nil. lia.
+    - (* PhAddN *)
+      destruct P as (Hd & Hc & Hn & Ho & Hq). subst c.
+      destruct Hq as [(Hr & Hnr & _)|(Hr & stale & t & p & Hqr & Hnr)].
+      + rewrite (pmc_no_reply _ _ Hnr). exists pre. split; [exact B|].
+        unfold PInv. cbn [w_ph set_ph w_out w_reps]. change (ncalls (set_ph w (PhAddN 1 []))) with (ncalls w).
+        repeat split; auto. apply qrep_nil. exact Hr.
+      + subst qr. destruct (pmc_has_reply 1 stale t p Hnr) as [q' Hp]. rewrite Hp.
+        destruct p; try (exists pre; split; [exact B|unfold PInv; cbn [w_ph set_ph w_out]; exact Ho]);
+          (exists pre; split;
+           [cbn [w_todo w_seq w_reps call]; rewrite ncalls_call; eapply Base_calls; [|exact B]; lia
+           |unfold PInv; cbn [w_ph call w_out w_reps w_seq]; rewrite ncalls_call, Hn;
+            split; [exact Hd|]; split; [reflexivity|]; split; [reflexivity|]; split; [reflexivity|];
+            split; [exact Ho|]; split; [constructor|]; split; [exact I|]; split; [constructor|];
+            left; split; [exact Hr|]; split; [reflexivity|]; left; reflexivity]).
+    - (* PhOwner *)
+      destruct P as (Hd & Hc & Hn & Hj & Ho & Hg & Hso & Hle & Hcase). subst c j.
+      destruct Hcase as [(Hr & Hf & Hq)|(Hr & tr & p & qb & qa & Hf & Hqn & Hb & Ha & Hlk & Hown' & Htr)]; subst fut.
+      + (* the lookup has not been answered *)
+        destruct qn as [|[ta a] qn'].
+        * rewrite owner_poll_empty. exists pre. split; [exact B|].
+          unfold PInv. cbn [w_ph set_ph w_out w_reps w_seq].
+          change (ncalls (set_ph w (PhOwner 2 JNone [] (Some [])))) with (ncalls w).
+          repeat (split; [first [assumption|reflexivity]|]). left. repeat split; auto.
+        * rewrite owner_poll_left.
+          destruct (good_head _ _ _ Hg) as (old & new & Hbody & Hnew & Hnd & Hg').
+          rewrite Hnew. cbn [apply_queued].
+          apply (resolved_inv w pre new qn' false B Hn Hd Ho Hnd Hg' (proj2 Hso)).
+          -- inversion Hle; assumption.
+          -- left. split; [exact Hr|]. destruct Hq as [Hq|Hq]; [discriminate|]. rewrite Hq. f_equal.
+             apply nend_cons. exact Hnew.
+      + (* the lookup has been answered *)
+        destruct qn as [|[ta a] qn'].
+        * rewrite owner_poll_right.
+          assert (qb = [] /\ qa = []) as [-> ->] by (destruct qb; [split; [reflexivity|exact (eq_sym Hqn)]|discriminate]).
+          cbn [nend fold_left] in Hown'.
+          assert (Hndl : not_driver (lookup_result p) = true) by (rewrite <- Hown'; apply (b_nd _ _ _ _ _ B Hd)).
+          assert (G : WInv (resolved_world w (lookup_result p) [] false)).
+          { apply (resolved_inv w pre _ [] false B Hn Hd Ho Hndl); [constructor|exact I|constructor|].
+            right. split; [exact Hr|exact Hown']. }
+          destruct p; cbn [apply_queued];
+            try (exists pre; split; [exact B|unfold PInv; cbn [w_ph set_ph w_out]; exact Ho]);
+            exact G.
+        * rewrite owner_poll_both in *.
+          destruct (good_head _ _ _ Hg) as (old & new & Hbody & Hnew & Hnd & Hg').
+          destruct (ta <=? tr) eqn:Ecmp.
+          -- (* a notification that came before the answer *)
+             apply N.leb_le in Ecmp.
+             destruct qb as [|[tb b] qb'].
+             { cbn [app] in Hqn. subst qa. inversion Ha as [|? ? Hx _]; subst. cbn in Hx. lia. }
+             cbn [app] in Hqn. inversion Hqn; subst tb b qn'. clear Hqn.
+             rewrite Hnew. cbn [apply_queued].
+             apply (resolved_inv w pre new (qb' ++ qa) false B Hn Hd Ho Hnd Hg' (proj2 Hso)).
+             ++ inversion Hle; assumption.
+             ++ right. split; [exact Hr|]. rewrite Hown', nend_app. f_equal.
+                destruct Hlk as [Hlk|Hlk]; [discriminate|]. rewrite Hlk. apply nend_cons. exact Hnew.
+          -- (* the answer first; the notification is left in the join *)
+             apply N.leb_gt in Ecmp.
+             destruct qb as [|[tb b] qb'].
+             2: { cbn [app] in Hqn. inversion Hqn; subst. inversion Hb as [|? ? Hx _]; subst. cbn in Hx. lia. }
+             cbn [app] in Hqn. subst qa.
+             assert (G : forall src0, src0 = lookup_result p ->
+                      w_lost (resolved_world w (fst (apply_queued (JA (ILeft a) ta) src0)) qn'
+                                             (snd (apply_queued (JA (ILeft a) ta) src0))) = false ->
+                      WInv (resolved_world w (fst (apply_queued (JA (ILeft a) ta) src0)) qn'
+                                           (snd (apply_queued (JA (ILeft a) ta) src0)))).
+             { intros src0 Hsrc Hl. cbn [apply_queued] in *. rewrite Hbody in *.
+               destruct new as [o|].
+               2: { unfold resolved_world, call in Hl. cbn [w_lost snd] in Hl.
+                    rewrite N.eqb_refl, orb_true_r in Hl. discriminate. }
+               rewrite N.eqb_refl. cbn [fst snd].
+               apply (resolved_inv w pre (Some o) qn' false B Hn Hd Ho Hnd Hg' (proj2 Hso)).
+               - inversion Hle; assumption.
+               - right. split; [exact Hr|]. rewrite Hown'. apply nend_cons. exact Hnew. }
+             destruct p;
+               try (exists pre; split; [exact B|unfold PInv; cbn [w_ph set_ph w_out]; exact Ho]).
+             ++ specialize (G (Some o) eq_refl).
+                destruct (apply_queued (JA (ILeft a) ta) (Some o)) as [s' l'] eqn:Eq. cbn [fst snd] in G.
+                apply G. exact Hlost.
+             ++ specialize (G None eq_refl).
+                destruct (apply_queued (JA (ILeft a) ta) None) as [s' l'] eqn:Eq. cbn [fst snd] in G.
+                apply G. exact Hlost.
+    - (* PhAddS *)
+      destruct P as (Ho & P).
+      destruct dest_cases as [Hd|[u Hd]]; rewrite Hd in P.
+      + destruct P as (Hc & Hn & Hnd & Hr & H1 & q & Hq & Hg & Hso & Hle & Hcase). subst c qn.
+        destruct Hr as [(Hr & Hnr & _)|(Hr & stale & t & p & Hqr & Hnr)].
+        * rewrite (pmc_no_reply _ _ Hnr). exists pre. split; [exact B|].
+          unfold PInv. cbn [w_ph set_ph w_out w_reps w_seq].
+          change (ncalls (set_ph w (PhAddS 3 src (Some q) []))) with (ncalls w). rewrite Hd.
+          split; [exact Ho|]. repeat (split; [first [assumption|reflexivity]|]).
+          split; [apply qrep_nil; exact Hr|]. split; [exact H1|]. exists q. repeat split; auto.
+        * subst qr. destruct (pmc_has_reply 3 stale t p Hnr) as [q' Hp]. rewrite Hp.
+          assert (Hown' : sp_owner (sp_run cf pre) = nend src q) by (destruct Hcase as [(E & _)|(_ & E)]; [lia|exact E]).
+          destruct p; try (exists pre; split; [exact B|unfold PInv; cbn [w_ph set_ph w_out]; exact Ho]);
+            (exists pre; split; [exact B|];
+             unfold PInv; cbn [w_ph w_out w_reps w_seq w_start];
+             match goal with |- context [ncalls ?x] => change (ncalls x) with (ncalls w) end;
+             rewrite Hd, Hn; split; [exact Hr|]; split; [reflexivity|];
+             split; [split; [exact I|]; cbn; split; [exact Hso|exact Hle]|];
+             split; [lia|]; split; [discriminate|];
+             unfold ss_pend, ss_end, ss_merged; cbn [ss_j ss_qs ss_qn ss_src bufA bufB oq app merge];
+             rewrite (frun_nocs _ _ Hg Hnd); cbn [fst snd map app rev];
+             split; [|exact (eq_sym Hown')];
+             rewrite Ho; cbn [rev app]; symmetry; unfold spec_pre; apply spec_from_early; rewrite (b_len _ _ _ _ _ B); lia).
+      + destruct P as (Hc & Hn & Hq & Hs & Hr). subst c qn src.
+        destruct Hr as [(Hr & Hnr & _)|(Hr & stale & t & p & Hqr & Hnr)].
+        * rewrite (pmc_no_reply _ _ Hnr). exists pre. split; [exact B|].
+          unfold PInv. cbn [w_ph set_ph w_out w_reps w_seq].
+          change (ncalls (set_ph w (PhAddS 1 (Some u) None []))) with (ncalls w). rewrite Hd.
+          repeat split; auto. apply qrep_nil. exact Hr.
+        * subst qr. destruct (pmc_has_reply 1 stale t p Hnr) as [q' Hp]. rewrite Hp.
+          destruct p; try (exists pre; split; [exact B|unfold PInv; cbn [w_ph set_ph w_out]; exact Ho]);
+            (exists pre; split; [exact B|];
+             unfold PInv; cbn [w_ph w_out w_reps w_seq w_start];
+             match goal with |- context [ncalls ?x] => change (ncalls x) with (ncalls w) end;
+             rewrite Hd, Hn; split; [exact Hr|]; split; [reflexivity|];
+             split; [split; [left; reflexivity|]; cbn; split; [exact I|constructor]|];
+             split; [lia|]; split; [reflexivity|];
+             unfold ss_pend, ss_end, ss_merged; cbn [ss_j ss_qs ss_qn ss_src bufA bufB oq app merge frun fst snd map rev];
+             split; [|symmetry; apply (sp_owner_unique cf u pre Hd)];
+             rewrite Ho; cbn [rev app]; symmetry; unfold spec_pre; apply spec_from_early; rewrite (b_len _ _ _ _ _ B); lia).
+  Qed.
+
+  (* ---- the consumer polls the stream once *)
+  Lemma poll_inv : forall w, WInv w -> WInv (consumer_poll w).
+  Proof.
+    intros w (pre & B & P). unfold consumer_poll. unfold PInv in P.
+    destruct (w_ph w) as [|c qr|c j qn fut|c src qn qr|st| |] eqn:Eph;
+      try (exists pre; split; [exact B|unfold PInv; rewrite Eph; exact P]).
+    destruct P as (Hr & Hn & (Hwf & Hso & Hle) & Hstart & Hq & Hy & He).
+    destruct (ss_poll_spec (ss_fuel st) st None Hwf Hso (ss_fuel_ok st))
+      as (r & st' & Ep & Hwf' & Hps & He' & k & Hk).
+    rewrite Ep. pose proof (ss_poll_qn _ _ _ _ _ Ep) as Hqn.
+    assert (Hok' : ss_ok (w_seq w) st').
+    { split; [exact Hwf'|]. rewrite Hk. split; [apply sorted_skipn; exact Hso|apply Forall_skipn; exact Hle]. }
+    assert (Hq' : match c_dest cf with DWell => ss_qn st' <> None | DUnique _ => ss_qn st' = None end).
+    { destruct (c_dest cf); tauto. }
+    destruct r as [m t| | |]; cbn [pspec] in Hps.
+    - exists pre. split; [exact B|]. unfold PInv. cbn [w_ph w_out w_reps w_seq w_start].
+      match goal with |- context [ncalls ?x] => change (ncalls x) with (ncalls w) end.
+      repeat (split; [assumption|]). split; [|congruence].
+      rewrite <- Hy, Hps. cbn [rev map fst]. rewrite <- app_assoc. reflexivity.
+    - destruct Hps as (_ & H1 & H2). exists pre. split; [exact B|]. unfold PInv. cbn [w_ph set_ph w_out w_reps w_seq w_start].
+      change (ncalls (set_ph w (PhReady st'))) with (ncalls w).
+      repeat (split; [assumption|]). split; [|congruence]. rewrite <- Hy, H1, H2. reflexivity.
+    - destruct Hps as (H1 & _). exists pre. split; [exact B|]. unfold PInv. cbn [w_ph set_ph w_out w_reps w_seq w_start].
+      change (ncalls (set_ph w (PhReady st'))) with (ncalls w).
+      repeat (split; [assumption|]). split; [|congruence]. rewrite <- Hy, H1. reflexivity.
+    - contradiction.
+  Qed.
+
+  Lemma init_inv : WInv (init_world h).
+  Proof.
+    exists []. split; [exact Base_init|]. unfold PInv. cbn. split; reflexivity.
+  Qed.
+
+  Lemma lost_mono : forall w a, w_lost w = true -> w_lost (step cf w a) = true.
+  Proof.
+    intros w a H. destruct a; cbn [step].
+    - unfold tick. destruct (w_todo w) as [|[s|p] rest]; [exact H|exact H|].
+      destruct (w_reps w <? ncalls w); exact H.
+    - unfold client_step;
+        repeat match goal with
+               | |- context [match ?x with _ => _ end] => destruct x
+               | |- context [let '(_, _) := ?x in _] => destruct x
+               end;
+        cbn [w_lost call set_ph]; try exact H; rewrite H; reflexivity.
+    - unfold consumer_poll;
+        repeat match goal with
+               | |- context [match ?x with _ => _ end] => destruct x
+               end;
+        cbn [w_lost call set_ph]; exact H.
+  Qed.
+
+  Lemma step_inv : forall w a, WInv w -> w_lost (step cf w a) = false -> WInv (step cf w a).
+  Proof.
+    intros w a Hi Hl. destruct a; cbn [step] in *.
+    - destruct (tick cf w) as [w'|] eqn:E; [eapply tick_inv; eassumption|exact Hi].
+    - apply client_inv; assumption.
+    - apply poll_inv; assumption.
+  Qed.
+
+  Lemma run_inv : forall sched w,
+    WInv w -> w_lost (fold_left (step cf) sched w) = false -> WInv (fold_left (step cf) sched w).
+  Proof.
+    induction sched as [|a sched IH]; intros w Hi Hl; [exact Hi|].
+    cbn [fold_left] in *. apply IH; [|exact Hl]. apply step_inv; [exact Hi|].
+    destruct (w_lost (step cf w a)) eqn:E; [|reflexivity].
+    assert (G : forall l x, w_lost x = true -> w_lost (fold_left (step cf) l x) = true).
+    { induction l as [|b l IHl]; intros x Hx; [exact Hx|]. cbn [fold_left]. apply IHl. apply lost_mono. exact Hx. }
+    rewrite (G _ _ E) in Hl. discriminate.
+  Qed.
+
+  (* ---- what the invariant says about the yielded items *)
+  Definition drained (w : world) : Prop :=
+    match w_ph w with
+    | PhReady st => exists st', ss_poll (ss_fuel st) st None = Some (RPending, st')
+    | _ => False
+    end.
+
+  Lemma inv_prefix : forall w, WInv w -> exists rest, spec_yield cf (w_start w) h = yielded w ++ rest.
+  Proof.
+    intros w (pre & B & P). unfold yielded. rewrite (b_split _ _ _ _ _ B).
+    destruct (spec_pre_prefix cf (w_start w) pre (w_todo w)) as [rest Hr]. rewrite Hr.
+    unfold PInv in P. destruct (w_ph w).
+    - destruct P as [_ Ho]. rewrite Ho. cbn [rev app]. eauto.
+    - destruct P as (_ & _ & _ & Ho & _). rewrite Ho. cbn [rev app]. eauto.
+    - destruct P as (_ & _ & _ & _ & Ho & _). rewrite Ho. cbn [rev app]. eauto.
+    - destruct P as (Ho & _). rewrite Ho. cbn [rev app]. eauto.
+    - destruct P as (_ & _ & _ & _ & _ & Hy & _). rewrite <- Hy, <- app_assoc. eauto.
+    - rewrite P. cbn [rev app]. eauto.
+    - rewrite P. cbn [rev app]. eauto.
+  Qed.
+
+  Lemma inv_complete : forall w, WInv w -> w_todo w = [] -> drained w ->
+    yielded w = spec_yield cf (w_start w) h.
+  Proof.
+    intros w (pre & B & P) Ht Hdr. unfold yielded, drained in *. unfold PInv in P.
+    destruct (w_ph w) as [| | | |st| |]; try contradiction.
+    destruct P as (_ & _ & (Hwf & Hso & _) & _ & _ & Hy & _). destruct Hdr as [st' Hp].
+    destruct (ss_poll_spec (ss_fuel st) st None Hwf Hso (ss_fuel_ok st)) as (r & st2 & Ep & _ & Hps & _).
+    rewrite Hp in Ep. inversion Ep; subst r st2. destruct Hps as (_ & H1 & _).
+    rewrite H1 in Hy. cbn [map] in Hy. rewrite app_nil_r in Hy.
+    rewrite Hy. pose proof (b_split _ _ _ _ _ B) as Hs. rewrite Ht, app_nil_r in Hs. subst pre. reflexivity.
+  Qed.
 End Run.
+
+(* ---------------------------------------------------------------- the theorems *)
+Definition Known_C32 (cf : cfg) (h : list wmsg) (sched : list action) : Prop :=
+  w_lost (run cf h sched) = true \/ forgeable cf h = true.
+
+Theorem owner_partial : forall cf h sched,
+  bus_history cf h = true -> ~ Known_C32 cf h sched ->
+  let w := run cf h sched in
+  (exists rest, spec_yield cf (w_start w) h = yielded w ++ rest) /\
+  (w_todo w = [] -> drained w -> yielded w = spec_yield cf (w_start w) h).
+Proof.
+  intros cf h sched Hb Hk w.
+  assert (Hl : w_lost w = false) by (destruct (w_lost w) eqn:E; [exfalso; apply Hk; left; exact E|reflexivity]).
+  assert (Hf : forgeable cf h = false) by (destruct (forgeable cf h) eqn:E; [exfalso; apply Hk; right; exact E|reflexivity]).
+  unfold bus_history in Hb. apply andb_true_iff in Hb. destruct Hb as [Hst Hb].
+  assert (Hown : c_dest cf = DWell -> owners_ok_from 0 h = true).
+  { intro Hd. rewrite Hd in Hb. apply andb_true_iff in Hb. tauto. }
+  assert (Hcon : c_dest cf = DWell -> consistent_from 0 None h = true).
+  { intro Hd. rewrite Hd in Hb. apply andb_true_iff in Hb. tauto. }
+  assert (Hi : WInv cf h w).
+  { apply (run_inv cf h Hst Hf Hown Hcon); [apply init_inv; assumption|exact Hl]. }
+  split.
+  - exact (inv_prefix cf h w Hi).
+  - intros Ht Hd. exact (inv_complete cf h w Hi Ht Hd).
+Qed.
+
+(* whenever the consumer polls a stream that has something for it, it gets the next item the specification
+   lists: a poll that comes back empty-handed means everything received so far has been yielded *)
+Theorem poll_pending_complete : forall cf h sched,
+  bus_history cf h = true -> ~ Known_C32 cf h sched ->
+  let w := run cf h sched in
+  drained w ->
+  yielded w = spec_yield cf (w_start w) (firstn (N.to_nat (w_seq w)) h).
+Proof.
+  intros cf h sched Hb Hk w Hdr.
+  assert (Hl : w_lost w = false) by (destruct (w_lost w) eqn:E; [exfalso; apply Hk; left; exact E|reflexivity]).
+  assert (Hf : forgeable cf h = false) by (destruct (forgeable cf h) eqn:E; [exfalso; apply Hk; right; exact E|reflexivity]).
+  unfold bus_history in Hb. apply andb_true_iff in Hb. destruct Hb as [Hst Hb].
+  assert (Hown : c_dest cf = DWell -> owners_ok_from 0 h = true).
+  { intro Hd. rewrite Hd in Hb. apply andb_true_iff in Hb. tauto. }
+  assert (Hcon : c_dest cf = DWell -> consistent_from 0 None h = true).
+  { intro Hd. rewrite Hd in Hb. apply andb_true_iff in Hb. tauto. }
+  assert (Hi : WInv cf h w).
+  { apply (run_inv cf h Hst Hf Hown Hcon); [apply init_inv; assumption|exact Hl]. }
+  destruct Hi as (pre & B & P). unfold drained in Hdr. unfold PInv in P. unfold yielded.
+  destruct (w_ph w) as [| | | |st| |]; try contradiction.
+  destruct P as (_ & _ & (Hwf & Hso & _) & _ & _ & Hy & _). destruct Hdr as [st' Hp].
+  destruct (ss_poll_spec (ss_fuel st) st None Hwf Hso (ss_fuel_ok st)) as (r & st2 & Ep & _ & Hps & _).
+  rewrite Hp in Ep. inversion Ep; subst r st2. destruct Hps as (_ & H1 & _).
+  rewrite H1 in Hy. cbn [map] in Hy. rewrite app_nil_r in Hy. rewrite Hy.
+  pose proof (b_split _ _ _ _ _ _ _ B) as Hs. pose proof (b_len _ _ _ _ _ _ _ B) as Hlen.
+  rewrite Hs, <- Hlen, Nnat.Nat2N.id, firstn_app, firstn_all, Nat.sub_diag. cbn [firstn]. rewrite app_nil_r.
+  reflexivity.
+Qed.
